@@ -5,7 +5,7 @@ from bsa.core import driver
 from bsa.graph import IG
 from bsa import atomics as A
 from bsa import lib as L
-from bsa.facts import pstr, strip_cast, const_val
+from bsa.facts import pstr, strip_cast, const_val, walk
 
 EXPLANATION = (
     "Structural clauses of C08 on every FutureContext<T,M> instantiation (int, string, void, T&, heap futex word): "
@@ -264,6 +264,96 @@ def run(ctx):
                 if isinstance(l, dict) and l.get("k") == "e" and fn.events.get(l["id"], {}).get("name") == "fetch_sub":
                     ctx.ob("C08.R4c", inst, pstr(init["r"]) == pstr(fn.events[l["id"]]["args"][0]),
                            "%s:%s" % (fn.file, n.line), "new count is not <old> - <amount subtracted>")
+
+    # ---------------------------------------------------------------- R4d a latch constructed with 0 is born fired
+    for fn in fb.find(pred=lambda f: re.match(r"^babylon::CountDownLatch<.*>$", f.record or "") and f.kind == "ctor" and f.has_cfg() and
+                      len(f.params) == 1 and "size_t" in (f.params[0].get("type") or "") + "size_t" and not (f.params[0].get("type") or "").endswith("&&")):
+        ig = IG(fn, inline=lambda fr, ev, callee: False)
+        live = ig.live_nodes()
+        sets = list(L.call_nodes(ig, name="set_value", live=live))
+
+        def zero0(atom, pol, lab):
+            c = L.effective_cmp(atom, pol)
+            return c is not None and c[0] == "==" and const_val(c[2]) == 0
+        ze = L.cond_edges(ig, zero0, live)
+        ok = bool(ze) and bool(sets) and all(s_.id not in ig.reach([ig.entry], removed_edges=ze) for s_ in sets)
+        for (_, d_) in ze:
+            if ig.exit.id in ig.reach([ig.nodes[d_]], removed=sets):
+                ok = False
+        ctx.ob("C08.R4d", L.short(fn), ok, fn.loc,
+               "a latch constructed with count 0 can never be counted down to 0: its future must be made ready in the constructor, "
+               "exactly on the count == 0 edge")
+
+    # ---------------------------------------------------------------- R6 then(): the derived future is fulfilled once, with the callback's result
+    adapters = [f for f in fb.find(pred=lambda f: f.name == "run_callback" and f.has_cfg() and f.params and
+                                   re.match(r"^babylon::Promise<.*> &$", f.params[0].get("type") or ""))]
+    ctx.floor("C08.R6", len(adapters), 6, "then() adapters (run_callback into a promise)")
+    for fn in adapters:
+        inst = L.short(fn)[:120]
+        ig = IG(fn, inline=lambda fr, ev, callee: False)
+        live = ig.live_nodes()
+        sets = [n for n in L.call_nodes(ig, name="set_value", live=live) if strip_cast(n.ev.get("this")).get("k") == "p" and strip_cast(n.ev["this"]).get("i") == 0]
+        inner = [n for n in L.call_nodes(ig, name="run_callback", live=live)]
+        rets = [n for n in ig.ev_nodes() if n.id in live and n.ev["e"] == "ret"] or [ig.exit]
+        cnt = ig.count_on_paths(ig.entry, disp_nodes=sets)
+        once = bool(sets) and cnt.get(ig.exit.id, frozenset()) == frozenset([1])
+        after = bool(inner) and all(ig.dominated_by(s_, inner) for s_ in sets)
+        void_t = (fn.d.get("targl") or [""])[0] == "void"
+        carries = True
+        if not void_t:
+            carries = all(s_.ev.get("args") and ig.ev_of(strip_cast(ig.resolve(s_.ev["args"][0], s_.frame))) in inner for s_ in sets)
+        ctx.ob("C08.R6a", inst, once and after and carries and len(inner) == 1, fn.loc,
+               "the future returned by then() must be fulfilled exactly once on every path, after the callback ran, and with the callback's "
+               "own result (found %d set_value, %d callback invocations)" % (len(sets), len(inner)), site="run_callback@then-adapter")
+    thens = fb.find(pred=lambda f: re.match(r"^babylon::Future<.*>$", f.record or "") and f.name == "then" and f.has_cfg())
+    for fn in thens:
+        inst = L.short(fn)[:120]
+        ig = IG(fn, inline=lambda fr, ev, callee: False)
+        live = ig.live_nodes()
+        gf = list(L.call_nodes(ig, name="get_future", live=live))
+        reg = list(L.call_nodes(ig, name="on_finish", live=live))
+        moves = [n for n in ig.ev_nodes() if n.id in live and n.ev["e"] == "ctor" and re.match(r"^babylon::Promise<", n.ev.get("type", "") or "") and n.ev.get("args")]
+        rets = [n for n in ig.ev_nodes() if n.id in live and n.ev["e"] == "ret" and n.frame.id == 0]
+        ok = len(gf) == 1 and len(reg) == 1 and bool(moves) and all(ig.dominated_by(m_, gf) for m_ in moves) and ig.dominated_by(reg[0], gf) and \
+            all(ig.dominated_by(r_, reg) for r_ in rets)
+        # the future handed out is the promise's own
+        if ok:
+            src_p = pstr(strip_cast(ig.resolve(gf[0].ev.get("this"), gf[0].frame)))
+            ok = all(pstr(strip_cast(ig.resolve(m_.ev["args"][0], m_.frame))) == src_p for m_ in moves)
+        if ok:
+            for r_ in rets:
+                os_ = ig.origins(ig.resolve(r_.ev.get("v"), r_.frame))
+                c_ = ig.ev_of(strip_cast(ig.resolve(r_.ev.get("v"), r_.frame)))
+                src = c_.ev.get("args", [None])[0] if c_ is not None and c_.ev["e"] == "ctor" else r_.ev.get("v")
+                ok = ok and any(ig.ev_of(o) is gf[0] for o in ig.origins(ig.resolve(src, r_.frame)))
+                del os_
+        ctx.ob("C08.R6b", inst, ok, fn.loc,
+               "then() must take the derived future from its promise before the promise is moved into the continuation, register exactly "
+               "one continuation on every path, and return that future", site="then@wiring")
+    # ---------------------------------------------------------------- R6c Promise::set_value keeps the shared state alive across the callbacks
+    for fn in fb.find(pred=lambda f: re.match(r"^babylon::Promise<.*>$", f.record or "") and f.name == "set_value" and f.has_cfg()):
+        ig = IG(fn, inline=lambda fr, ev, callee: False)
+        live = ig.live_nodes()
+        inner = [n for n in L.call_nodes(ig, name="set_value", live=live)]
+        ok = bool(inner)
+        for n in inner:
+            th = strip_cast(ig.resolve(n.ev.get("this"), n.frame))
+            base = None
+            for sd in walk(th):
+                if isinstance(sd, dict) and sd.get("k") == "l":
+                    base = sd
+                    break
+                if isinstance(sd, dict) and sd.get("k") == "e":
+                    e_ = ig.ev_of(sd)
+                    th2 = strip_cast(ig.resolve(e_.ev.get("this"), e_.frame)) if e_ is not None and e_.ev.get("this") is not None else None
+                    if isinstance(th2, dict) and th2.get("k") == "l":
+                        base = th2
+                        break
+            ok = ok and base is not None and re.match(r"^(class )?std::shared_ptr<", (fn.vars.get(str(base.get("id"))) or {}).get("type", "std::shared_ptr<") or "")
+        ctx.ob("C08.R6c", L.short(fn)[:110], ok, fn.loc,
+               "Promise::set_value must run the shared state's set_value through a local copy of the shared_ptr: a callback may destroy "
+               "the promise (and the last other reference) while the callbacks of the same state are still being run",
+               site="Promise::set_value@keeps-state-alive")
 
     # ---------------------------------------------------------------- R5 type-level
     recs = fb.records()
